@@ -86,17 +86,26 @@ let verdict case impl =
                  j (List.map (fun (o, (lo, hi)) -> Printf.sprintf "%s@%x:%x" (po o) (int_of_nat lo) (int_of_nat hi)) (ts_run s seq O)) ] in
        if impl = m then "ok"
        else (match impl with
-           | [olen; oiter; onth; ochoose; oord; _] ->
+           | [olen; oiter; onth; ochoose; oord; oops] ->
              (* the property on the implementation's own views: they describe one list *)
              let it = if oiter = "-" then [] else split_on ',' oiter in
              let srt l = List.sort compare l in
+             let ch = if ochoose = "-" then [] else split_on ',' ochoose in
+             (* the interleaved next/nth results (the part before '@'; the size hints are compared
+                with the model only) against the extracted plist_run on the implementation's own
+                iteration *)
+             let ops_vals = List.map (fun e -> match String.index_opt e '@' with
+                 | Some k -> String.sub e 0 k | None -> e) (if oops = "-" then [] else split_on ',' oops) in
+             let own_ops = List.map (fun (o, _) -> match o with Some x -> x | None -> "_") (plist_run seq it) in
              let consistent =
                int_of_string ("0x" ^ olen) = List.length it
                (* the views describe the same replicas; the order of the ordered view of a tablet set
                   is not part of the statement *)
                && srt (if oord = "-" then [] else split_on ',' oord) = srt it
                && (split_on ',' onth |> List.mapi (fun k v -> v = (match List.nth_opt it k with Some x -> x | None -> "_")) |> List.for_all (fun b -> b))
-               && (ochoose = "-" || List.for_all (fun x -> List.mem x it) (split_on ',' ochoose)) in
+               && List.length ch = List.length it
+               && List.for_all (fun x -> List.mem x it) ch
+               && ops_vals = own_ops in
              (if consistent then "diff" else "viol views") ^ " tablet-set model: " ^ String.concat " " m
            | ["panic"] -> "viol panic"
            | _ -> "error bad-impl-output"))
@@ -166,9 +175,11 @@ let verdict case impl =
            (if List.length o_ops = List.length seqs then List.combine seqs o_ops else [([], [Some N0])]) o_ep in
        (* a token owned by several nodes: the statement does not say in which order they come; the
           placement / ring-order predicates are evaluated for every order of the entries sharing a
-          token (at most 24 variants) and fail only if they fail for all of them *)
-       let variants =
-         if tokens_distinct g then [g] else begin
+          token and fail only if they fail for all of them.  Rings with more than 720 such orders
+          are not enumerated: there (capped) a placement / ring-order failure on the stored order
+          is not a verdict on the property and is reported as diff *)
+       let capped, variants =
+         if tokens_distinct g then (false, [g]) else begin
            let rec runs = function
              | [] -> []
              | (tk, n) :: r ->
@@ -180,21 +191,35 @@ let verdict case impl =
            let rec prod = function
              | [] -> [[]]
              | run :: r -> let tails = prod r in
-               List.concat_map (fun p -> List.map (fun tl -> p @ tl) tails) (if List.length run > 3 then [run] else perms run) in
-           let all = prod (runs g) in
-           if List.length all > 24 then [g] else all
+               List.concat_map (fun p -> List.map (fun tl -> p @ tl) tails) (perms run) in
+           let rec fact k = if k <= 1 then 1 else k * fact (k - 1) in
+           let rs = runs g in
+           let count = List.fold_left (fun acc run ->
+               if acc > 720 || List.length run > 6 then 721 else acc * fact (List.length run)) 1 rs in
+           if count > 720 then (true, [g]) else (false, prod rs)
          end in
        let ordered_okb = match o_ord with
          | Some l -> List.exists (fun g' -> ordered_ok g' t o_iter l) variants
          | None -> false in
        let pre_ok = precomputed_ok o_np o_iter in
        let place_ok = List.exists (fun g' -> placement_ok (spec_replicas dcf rackf g' t strat dc) o_iter) variants in
-       let fails = (if views_ok then [] else ["views"]) @ (if ordered_okb then [] else ["ordered"])
-                   @ (if pre_ok then [] else ["precomputed"]) @ (if place_ok then [] else ["placement"]) in
+       (* order-dependent failures that could not be judged for every order (capped); a panic of
+          the ordered view does not depend on the order *)
+       (* ... what does not depend on the order is still judged there: the ordered view names the
+          iterated nodes; the replicas own tokens and are as many as specified (C04_nts_len,
+          C04_prefix_simple: the number is a function of the node sets, not of the order) *)
+       let soft_ord = capped && not ordered_okb && (match o_ord with Some l -> same_set l o_iter | None -> false)
+       and soft_place = capped && not place_ok
+                        && List.for_all (fun x -> List.exists (fun (_, n) -> n = x) g) o_iter
+                        && nodupb o_iter && List.length o_iter = List.length spec in
+       let fails = (if views_ok then [] else ["views"]) @ (if ordered_okb || soft_ord then [] else ["ordered"])
+                   @ (if pre_ok then [] else ["precomputed"]) @ (if place_ok || soft_place then [] else ["placement"]) in
        let detail = Printf.sprintf "model: len=%x iter=%s nth=%s choose=%s ordered=%s np=%s spec=%s"
            m_len (str_ids m_iter) (String.concat "," (List.map str_opt m_nth))
            (String.concat "," (List.map str_opt m_choose))
            (if m_left = [] then str_ids m_ord else "panic") (str_ids m_np) (str_ids spec) in
+       let detail = if soft_ord || soft_place
+         then "shared-token orders not enumerated (more than 720): the order-dependent part of " ^ String.concat "," ((if soft_place then ["placement"] else []) @ (if soft_ord then ["ordered"] else [])) ^ " not judged; " ^ detail else detail in
        if fails = [] then "diff " ^ detail
        else "viol " ^ String.concat "," fails ^ " " ^ detail
      | ["panic"] -> "viol panic"
